@@ -117,8 +117,33 @@ def check_other(ctx, prog, stats):
         stats["other_class_walks"] += 1
 
 
+def check_shared(ctx, prog, stats):
+    """the same method functions held by two functions (f and a copy of f): each function adapts the methods for itself,
+    so after both were built and used, f's walks must still be f's walks (property oracle: a separately built function
+    over the same definitions)"""
+    defs = prog["defs"]
+    b = progs.Built(world_from(prog["spec"]), defs)
+    ref = progs.Built(world_from(prog["spec"]), defs)
+    g = b.ov.copy()
+    calls = [c for c in prog["calls"] if not c["kw"]]
+    if not calls:
+        return
+    first = [b.call([b.w.instance(c) for c in call["pos"]]) for call in calls]
+    for call in calls:
+        b.call([b.w.instance(c) for c in call["pos"]], ov=g)
+    for call, r1 in zip(calls, first):
+        exp = ref.call([ref.w.instance(c) for c in call["pos"]])
+        got = b.call([b.w.instance(c) for c in call["pos"]])
+        stats["evaluations"] += 1
+        stats["shared_walks"] += 1
+        case = {"spec": prog["spec"], "defs": defs, "calls": [call], "shared": True}
+        if got != exp or r1 != exp:
+            ctx.violation(f"after a copy of the function was built and used, the walk {got} (before: {r1}) differs from the walk of a separately built function {exp}", case)
+            return
+
+
 def run(ctx):
-    stats = {"other_class_walks": 0, "evaluations": 0, "programs": 0, "oracle_steps": 0, "kf01": 0, "nontrivial": set(), "chain_lengths": collections.Counter()}
+    stats = {"other_class_walks": 0, "shared_walks": 0, "evaluations": 0, "programs": 0, "oracle_steps": 0, "kf01": 0, "nontrivial": set(), "chain_lengths": collections.Counter()}
     samples = []
     n = 60 if ctx.quick() else 3000
     for _ in range(n):
@@ -127,6 +152,7 @@ def run(ctx):
             continue
         check(ctx, prog, stats)
         check_other(ctx, prog, stats)
+        check_shared(ctx, prog, stats)
         if len(samples) < 2:
             samples.append({"defs": prog["defs"], "call": prog["calls"][0]})
         if len(ctx.violations) > 3:
@@ -134,12 +160,17 @@ def run(ctx):
     return {"evaluations": stats["evaluations"], "distinct_nontrivial": len(stats["nontrivial"]),
             "rule": "random programs (as C02, fixed arity) with 70% of the methods delegating through call_next; a case (world, methods, call) is non-trivial when at least one body ran; distinct by content",
             "samples": samples, "programs": stats["programs"], "visit_chain_length_histogram": {str(k): v for k, v in stats["chain_lengths"].items()},
-            "oracle_steps_against_reduced_functions": stats["oracle_steps"], "walks_with_call_next_on_another_class": stats["other_class_walks"], "deviations_attributed_to_KF-01": stats["kf01"],
+            "oracle_steps_against_reduced_functions": stats["oracle_steps"], "walks_with_call_next_on_another_class": stats["other_class_walks"], "walks_after_a_copy_sharing_the_methods_was_used": stats["shared_walks"], "deviations_attributed_to_KF-01": stats["kf01"],
             "traces_validated_against_impl": stats["evaluations"]}
 
 
 def replay(ctx, payload):
     prog = payload["case"]
+    if prog.get("shared"):
+        stats = collections.Counter()
+        before = len(ctx.violations)
+        check_shared(ctx, prog, stats)
+        return len(ctx.violations) > before
     w = world_from(prog["spec"])
     b = progs.Built(w, prog["defs"])
     mms = R.model_defs(prog["defs"])
